@@ -119,6 +119,12 @@ CLAIMED = {
             "count + 1 > limit is decided by the solver for all limit values 0..2^32-1; opening "
             "sends / received HEADERS are refused iff over the limit in force (acknowledged "
             "local limit for inbound).", "7/C10"),
+    'C29': ("every public call executed symbolically from every distinct observer state of the "
+            "catalogue with a symbolic stream id (hash-free stream map) and symbolic / "
+            "solver-chosen arguments, including out-of-range values",
+            "Outcome is success, an h2 exception or ValueError/TypeError; StreamClosedError vs "
+            "NoSuchStreamError decided against the high-water marks; a raising call leaves the "
+            "output buffer untouched.", "7/C29"),
 }
 
 NOT_YET = {}
